@@ -700,8 +700,8 @@ class StmtMixin:
             for q, oc in self.ex(s.body, scratch):
                 if q.ghost.get("$ir_dirty"):
                     dirty = True
-        except Unsupported:
-            dirty = True
+        except (Unsupported, TypeError, AttributeError, KeyError, IndexError, z3.Z3Exception):
+            dirty = True        # the dry run (unmodelled loop element) does not fit the body: assume it may touch IR state
         del self.obligations[n_ob:]
         del self.terminals[n_term:]
         return dirty
@@ -835,6 +835,13 @@ class StmtMixin:
         if getattr(spec, "fresh_boxes", False):
             self.havoc_fresh_boxes(p)
         havoc_heap = dict(p.heap)
+        # effect obligations (lenient mode): a loop whose contract lets it change pre-existing state is a mutation loop - at an
+        # arbitrary iteration, and after it, earlier iterations may already have touched IR state; a loop under the default
+        # frame may not contain an IR-mutating call at all (checked at the end of every body path)
+        dirty_at_head = bool(p.ghost.get("$ir_dirty"))
+        default_frame = bool(getattr(spec, "fresh_boxes", False))
+        if self.lenient and not dirty_at_head and not default_frame and self._body_may_dirty(p, s):
+            p.ghost["$ir_dirty"] = f"an earlier iteration of the loop at {L}"
         if kind == "for":
             kv = VInt(z3.Int(fresh_name(f"k{ordinal}")))
             p.frame.locals[kname] = kv
@@ -875,11 +882,13 @@ class StmtMixin:
                         self.oblige(q2, goal, "inv-step", f"{L}#{idx}")
                         q2.assume(goal)
                     self.check_loop_frame(q2, spec, havoc_heap, L)
+                    self._check_default_frame_clean(q2, default_frame, dirty_at_head, L)
                     self.on_loop_iteration_end(q2, s, ordinal, entry_heap)
                     self.terminal(q2, f"loop-end {L}")
                     # path ends here (cut)
                 elif oc2[0] == "break":
                     self.check_loop_frame(q2, spec, havoc_heap, L)
+                    self._check_default_frame_clean(q2, default_frame, dirty_at_head, L)
                     out.append((q2, NEXT))
                 else:
                     out.append((q2, oc2))
@@ -891,6 +900,13 @@ class StmtMixin:
 
     def on_loop_iteration_end(self, p, s, ordinal, entry_heap):
         pass
+
+    def _check_default_frame_clean(self, q, default_frame, dirty_at_head, L):
+        """Default loop frame of the effect obligations: nothing that existed before the function was entered changes in the
+        loop.  A call that may change IR state (it havocs the modelled heap, so the field-wise frame check cannot see it) breaks
+        that frame: the loop is a mutation loop and needs a loop contract saying so."""
+        if self.lenient and default_frame and not dirty_at_head and q.ghost.get("$ir_dirty"):
+            self.oblige(q, z3.BoolVal(False), "loop-frame", f"{L}:no IR-mutating call in a loop under the default frame ({q.ghost['$ir_dirty']})")
 
     def loop_env(self, p, ordinal, kind, entry_heap):
         env = {"$loop_heap": entry_heap}
